@@ -352,6 +352,12 @@ def check_cs(case) -> Outcome:
     if not np.all(np.diff(knots) > 0) or abs(knots[0] - lo) > 1e-12 or abs(knots[-1] - hi) > 1e-12:
         out.fail("cs-knots", f"{kwargs}: knots {knots.tolist()} bounds {(lo, hi)}", **feat)
         return out
+    if np.min(np.diff(knots)) < 1e-6 * (knots[-1] - knots[0]):
+        # two knots almost on top of each other relative to the range (e.g. a bound at 0 with data at 1e4 + U(0,1)):
+        # the interpolation system is ill-conditioned and its solution is accurate to ~cond * eps only - not compared
+        out.label("excluded:near-coincident-knots")
+        out.nontrivial = False
+        return out
     if len(knots) - (1 if cyclic else 0) != nbasis_free:
         out.fail("cs-knot-count", f"{kwargs}: {len(knots)} knots for {nbasis_free} free basis functions", **feat)
         return out
